@@ -656,6 +656,12 @@ def oracle_path(run, spec, vspec=None):
                 continue
             if fmt == 'cimobject':
                 continue
+            if eq and lim == 'none' and fnd == 'none' and not has_nan(p):
+                # model theorem C07_second_print_identical, on the real code: printing the re-parsed path gives the same text
+                u2 = q.to_wbem_uri(format=fmt)
+                run.count('second_print:' + ('same' if u2 == u else 'DIFFERENT'))
+                if u2 != u:
+                    run.disagree(case, 'to(from(to(p))) = to(p)', {'fmt': fmt, 'first': u, 'second': u2}, 'second trip')
             if not eq:
                 if lim != 'none':
                     run.count('limit:' + lim)
@@ -1154,10 +1160,10 @@ def sweep_strings(thorough):
 def run(run):
     import pywbem
     rng = run.rng
-    n_paths = 120000 if run.thorough else 9000
-    n_cpaths = 12000 if run.thorough else 1500
-    n_texts = 400000 if run.thorough else 30000
-    n_lits = 150000 if run.thorough else 12000
+    n_paths = 85000 if run.thorough else 5000
+    n_cpaths = 12000 if run.thorough else 1200
+    n_texts = 400000 if run.thorough else 20000
+    n_lits = 150000 if run.thorough else 6000
     run.rule = ('seeded random instance paths (0..6 keybindings of type string/char16/boolean/uintN/sintN/int/real32/real64/float incl. '
                 'INF/NaN/exponent forms/random bit patterns, datetime incl. asterisks, reference nested <= 3; strings weighted toward '
                 'quote, backslash, comma, =, apostrophe, newline, look-alikes of datetimes/URIs/literals; hosts incl. IPv6, ports, '
